@@ -67,11 +67,13 @@ func c13HTLCState() (*vEnv, keeper.Keeper, sdk.Context, []c13Slot, int64) {
 		}
 		return s
 	}
-	slots := []slot{mk("1", 1, uint64(h))}
+	// the ids of the contracts due now lie at the two ends of the height's key range in the expiry queue
+	// (first byte 0xff / 0x00), the later one in between
+	slots := []slot{mk("1", 0xff, uint64(h))}
 	if verifChoice("two", 2) == 1 {
-		slots = append(slots, mk("2", 2, uint64(h)))
+		slots = append(slots, mk("2", 0x00, uint64(h)))
 	}
-	slots = append(slots, mk("3", 3, uint64(h)+7))
+	slots = append(slots, mk("3", 0x80, uint64(h)+7))
 	needEsc := map[string]*big.Int{hDenom: big.NewInt(0), hOther: big.NewInt(0)}
 	needIn, needOut := big.NewInt(0), big.NewInt(0)
 	for _, s := range slots {
